@@ -13,7 +13,7 @@
 (* inside a larger device), re-opens from bytes, walks, and parses the image           *)
 (* independently.  The predicates P_C06 / P_C07 judge each recorded event.             *)
 EXTENDS Integers, Sequences, FiniteSets, TLC
-TreeDims == [shape : {"empty", "flat1", "wide40", "wide300", "deep8", "deep9", "mixed"},
+TreeDims == [shape : {"empty", "flat1", "wide40", "wide300", "deep8", "deep9", "mixed", "boundary", "manyfrag"},   \* boundary: directories of 40..75 equal-length names, so that some directory record ends exactly on a block boundary; manyfrag: 1100 files just under one block (squashfs: > 512 fragment blocks, > 1024 inodes, so fragment / export / id tables span several metadata blocks)
              sizes : {"small", "multi"},
              names : {"plain83", "long", "collide", "unicode", "dotfiles"},
              links : {"no", "yes"}]
